@@ -48,33 +48,36 @@ const (
 type vEvent map[string]interface{}
 
 type vScenario struct {
-	ID         int               `json:"id"`
-	Mode       string            `json:"mode"` // "replay" | "herd"
-	Steps      [][]interface{}   `json:"steps"`
-	Via        map[string]string `json:"via"`
-	Addr       map[string]string `json:"addr"`       // proxy name -> remote address
-	PType      map[string]string `json:"ptype"`      // proxy name -> proxy type
-	Fresh      bool              `json:"fresh"`      // start with a new BrokerContext
-	Bridges    []string          `json:"bridges"`    // configured bridge list (default: default + b2)
-	Barrier    bool              `json:"barrier"`    // herd: lock-step release of all goroutines waiting at hook points
-	RollDuring bool              `json:"rollduring"` // herd: a metrics period ends while a wave is being served (C20)
-	Rollover   bool              `json:"rollover"`   // a metrics period ends before this scenario
-	NoRelayExt map[string]bool   `json:"norelayext"` // proxies whose poll omits AcceptedRelayPattern
+	ID          int               `json:"id"`
+	Mode        string            `json:"mode"` // "replay" | "herd"
+	Steps       [][]interface{}   `json:"steps"`
+	Via         map[string]string `json:"via"`
+	Addr        map[string]string `json:"addr"`        // proxy name -> remote address
+	PType       map[string]string `json:"ptype"`       // proxy name -> proxy type
+	Fresh       bool              `json:"fresh"`       // start with a new BrokerContext
+	Bridges     []string          `json:"bridges"`     // configured bridge list (default: default + b2)
+	Barrier     bool              `json:"barrier"`     // herd: lock-step release of all goroutines waiting at hook points
+	SimilarSids bool              `json:"similarsids"` // session ids on the wire differ only in padding, case or white space
+	WireLoad    map[string]string `json:"wireload"`    // proxy name -> self-reported client count actually sent (decimal int64); the step carries its order-preserving abstraction
+	RollDuring  bool              `json:"rollduring"`  // herd: a metrics period ends while a wave is being served (C20)
+	Rollover    bool              `json:"rollover"`    // a metrics period ends before this scenario
+	NoRelayExt  map[string]bool   `json:"norelayext"`  // proxies whose poll omits AcceptedRelayPattern
 }
 
 type vReq struct {
-	kind    string // proxy | client | answer
-	name    string
-	nat     string // as on the wire ("absent" = field omitted)
-	fp      string
-	load    int
-	target  string
-	via     string
-	done    bool
-	started bool
-	addr    string
-	norelay bool
-	sid     string // session id sent on the wire (default: the request name)
+	kind     string // proxy | client | answer
+	name     string
+	nat      string // as on the wire ("absent" = field omitted)
+	fp       string
+	load     int
+	target   string
+	via      string
+	done     bool
+	started  bool
+	addr     string
+	norelay  bool
+	sid      string // session id sent on the wire (default: the request name)
+	wireload string // self-reported count sent on the wire when it is not the step's number
 }
 
 type vRig struct {
@@ -88,6 +91,9 @@ type vRig struct {
 	waiting  map[string]chan struct{}
 	gateMode bool
 	lockstep bool
+	similar  bool
+	out      *os.File
+	sidName  map[string]string // wire session id -> request name that introduced it
 	diverged string
 	sc       int
 }
@@ -148,6 +154,12 @@ func (r *vRig) emit(ev vEvent) {
 	r.mu.Lock()
 	ev["sc"] = r.sc
 	r.events = append(r.events, ev)
+	if r.out != nil {
+		// written at once: the events of a scenario that kills the process are not lost
+		if b, err := json.Marshal(ev); err == nil {
+			r.out.Write(append(b, '\n'))
+		}
+	}
 	r.mu.Unlock()
 }
 
@@ -176,6 +188,18 @@ func vWatchdog(out *os.File, limit time.Duration) {
 			os.Exit(7)
 		}
 	}
+}
+
+// pname: the proxy name the hooks' session id stands for ("?<sid>" if the broker
+// shows a session id no proxy sent).
+func (r *vRig) pname(sid interface{}) string {
+	s, _ := sid.(string)
+	r.mu.Lock()
+	defer r.mu.Unlock()
+	if n, ok := r.sidName[s]; ok {
+		return n
+	}
+	return "?" + s
 }
 
 func (r *vRig) probe() bool {
@@ -220,29 +244,32 @@ func (r *vRig) hook(point string, args ...interface{}) {
 	gateKey := ""
 	switch point {
 	case "add":
-		ev["p"], ev["nat"], ev["load"], ev["ptype"] = args[0], args[1], args[2], args[3]
+		ev["p"], ev["nat"], ev["load"], ev["ptype"] = r.pname(args[0]), args[1], fmt.Sprint(args[2]), args[3]
 		ev["locked"] = r.probe()
 		r.mu.Lock()
-		ev["addr"], ev["relayext"], ev["loadwire"], ev["natwire"] = "?", true, args[2], args[1]
-		if q := r.reqs[args[0].(string)]; q != nil {
-			// what the proxy actually reported on the wire
+		ev["addr"], ev["relayext"], ev["loadwire"], ev["natwire"] = "?", true, 0, args[1]
+		if q := r.reqs[ev["p"].(string)]; q != nil {
+			// what the proxy actually reported on the wire (the count as its order-preserving abstraction)
 			ev["addr"], ev["relayext"], ev["loadwire"], ev["natwire"] = q.addr, !q.norelay, q.load, q.nat
 		}
 		r.mu.Unlock()
 	case "p.got":
-		ev["p"], ev["ok"] = args[0], args[1]
+		ev["p"], ev["ok"] = r.pname(args[0]), args[1]
 	case "w.offer", "w.forwarded":
-		ev["p"] = args[0]
+		ev["p"] = r.pname(args[0])
 	case "w.timeout":
-		ev["p"] = args[0]
-		gateKey = "w.timeout/" + args[0].(string)
+		ev["p"] = r.pname(args[0])
+		gateKey = "w.timeout/" + ev["p"].(string)
 	case "w.locked":
-		ev["p"], ev["popped"] = args[0], args[1].(int) == -1
+		ev["p"], ev["popped"] = r.pname(args[0]), args[1].(int) == -1
 		ev["locked"] = r.probe()
 	case "w.claimed":
-		ev["p"] = args[0]
+		ev["p"] = r.pname(args[0])
 	case "c.match":
-		ev["c"], ev["nat"], ev["root"], ev["len"] = g, args[0], args[1], args[2]
+		ev["c"], ev["nat"], ev["root"], ev["len"] = g, args[0], "", args[2]
+		if root, _ := args[1].(string); root != "" {
+			ev["root"] = r.pname(root)
+		}
 		ev["locked"] = r.probe()
 		r.mu.Lock()
 		if q := r.reqs[g]; q != nil {
@@ -252,22 +279,22 @@ func (r *vRig) hook(point string, args ...interface{}) {
 		}
 		r.mu.Unlock()
 	case "c.offer":
-		ev["c"], ev["p"] = g, args[0]
+		ev["c"], ev["p"] = g, r.pname(args[0])
 		gateKey = "c.offer/" + g
 	case "c.sent":
-		ev["c"], ev["p"] = g, args[0]
+		ev["c"], ev["p"] = g, r.pname(args[0])
 	case "c.answer":
 		ev["c"], ev["a"] = g, vAnswerName(args[0].(string))
 	case "c.timeout":
 		ev["c"] = g
 	case "c.precleanup":
-		ev["c"], ev["p"] = g, args[0]
+		ev["c"], ev["p"] = g, r.pname(args[0])
 		gateKey = "c.precleanup/" + g
 	case "c.cleanup":
-		ev["c"], ev["p"] = g, args[0]
+		ev["c"], ev["p"] = g, r.pname(args[0])
 		ev["locked"] = r.probe()
 	case "a.lookup":
-		ev["a"], ev["sid"], ev["ok"] = g, args[0], args[1]
+		ev["a"], ev["sid"], ev["ok"] = g, r.pname(args[0]), args[1]
 		ev["locked"] = r.probe()
 	case "a.send":
 		ev["a"] = g
@@ -386,11 +413,17 @@ func (r *vRig) doProxy(q *vReq, sc *vScenario) vEvent {
 	}
 	var body []byte
 	var err error
-	if q.norelay {
-		body, err = json.Marshal(map[string]interface{}{"Sid": q.sid, "Version": "1.2", "Type": ptype, "NAT": vWireNat(q.nat), "Clients": q.load})
-	} else {
-		body, err = messages.EncodeProxyPollRequestWithRelayPrefix(q.sid, ptype, vWireNat(q.nat), q.load, "")
+	clients := json.Number(strconv.Itoa(q.load))
+	if q.wireload != "" {
+		clients = json.Number(q.wireload)
 	}
+	m := map[string]interface{}{"Sid": q.sid, "Version": "1.3", "Type": ptype, "NAT": vWireNat(q.nat), "Clients": clients}
+	if q.norelay {
+		m["Version"] = "1.2"
+	} else {
+		m["AcceptedRelayPattern"] = ""
+	}
+	body, err = json.Marshal(m)
 	if err != nil {
 		panic(err)
 	}
@@ -502,7 +535,7 @@ func (r *vRig) doClient(q *vReq) vEvent {
 }
 
 func (r *vRig) doAnswer(q *vReq) vEvent {
-	body, err := messages.EncodeAnswerRequest(fmt.Sprintf("ANSWER:%s:%d", q.name, r.sc), q.target)
+	body, err := messages.EncodeAnswerRequest(fmt.Sprintf("ANSWER:%s:%d", q.name, r.sc), vWireSid(q.target, r.similar))
 	if err != nil {
 		panic(err)
 	}
@@ -530,8 +563,42 @@ func (r *vRig) doAnswer(q *vReq) vEvent {
 
 func vStr(x interface{}) string { s, _ := x.(string); return s }
 func vInt(x interface{}) int {
-	f, _ := x.(float64)
-	return int(f)
+	switch v := x.(type) {
+	case float64:
+		return int(v)
+	case json.Number:
+		n, _ := v.Int64()
+		return int(n)
+	}
+	return 0
+}
+
+// vWireSid: the session id sent on the wire for request name `name`.  With
+// similar = true the ids of different proxies differ only in base64 padding,
+// letter case or surrounding white space - all of them distinct ids.
+func vWireSid(name string, similar bool) string {
+	if !similar || name == "unknownSid" {
+		return name
+	}
+	switch name {
+	case "p1":
+		return "QUJDRA"
+	case "p2":
+		return "QUJDRA=="
+	case "p3":
+		return "QUJDRA="
+	case "p4":
+		return "qujdra"
+	case "p5":
+		return "QUJDRA "
+	case "p6":
+		return " QUJDRA"
+	case "p7":
+		return "QUJDRAA"
+	case "p8":
+		return "QUJDR"
+	}
+	return "QUJDRA-" + name
 }
 
 func (r *vRig) reqFromStep(st []interface{}, sc *vScenario) *vReq {
@@ -545,10 +612,16 @@ func (r *vRig) reqFromStep(st []interface{}, sc *vScenario) *vReq {
 		if i := strings.LastIndex(q.addr, ":"); i >= 0 {
 			q.addr = q.addr[:i]
 		}
-		q.sid = q.name
+		q.sid = vWireSid(q.name, sc.SimilarSids)
 		if len(st) > 4 && vStr(st[4]) != "" {
-			q.sid = vStr(st[4]) // a proxy that polls again with a session id it used before
+			q.sid = vWireSid(vStr(st[4]), sc.SimilarSids) // a proxy that polls again with a session id it used before
 		}
+		q.wireload = sc.WireLoad[q.name]
+		r.mu.Lock()
+		if _, dup := r.sidName[q.sid]; !dup {
+			r.sidName[q.sid] = q.name
+		}
+		r.mu.Unlock()
 		return q
 	case "ClientMatch":
 		via := sc.Via[vStr(st[1])]
@@ -623,8 +696,15 @@ func (r *vRig) runSteps(sc *vScenario) {
 			synctest.Wait()
 		case "Barrier":
 			r.barrier()
+		case "DebugPoll":
+			r.debugPoll(!r.lockstep && sc.Mode == "replay")
+			synctest.Wait()
 		case "Wave":
 			for n, x := range st[1].([]interface{}) {
+				if vStr(x.([]interface{})[0]) == "DebugPoll" {
+					go r.debugPoll(false)
+					continue
+				}
 				r.start(r.reqFromStep(x.([]interface{}), sc), sc)
 				if sc.RollDuring && n == 1 {
 					go func() {
@@ -675,6 +755,26 @@ func (r *vRig) runSteps(sc *vScenario) {
 }
 
 var vAvailRe = regexp.MustCompile(`current snowflakes available: (\d+)`)
+
+// debugPoll: GET /debug while other requests are in flight.
+func (r *vRig) debugPoll(exact bool) {
+	w := httptest.NewRecorder()
+	req, _ := http.NewRequest("GET", "http://broker.example/debug", nil)
+	func() {
+		defer func() {
+			if v := recover(); v != nil {
+				r.emit(vEvent{"ev": "debug", "avail": -2, "exact": true, "detail": fmt.Sprint(v)})
+			}
+		}()
+		SnowflakeHandler{r.ipc, debugHandler}.ServeHTTP(w, req)
+	}()
+	avail := -1
+	if m := vAvailRe.FindStringSubmatch(w.Body.String()); m != nil {
+		avail, _ = strconv.Atoi(m[1])
+	}
+	// exact: nothing else runs while the request is served (gated replay), so the count is the model's
+	r.emit(vEvent{"ev": "debug", "avail": avail, "exact": exact})
+}
 
 func (r *vRig) observeEnd(sc *vScenario) vEvent {
 	end := vEvent{"ev": "end", "pending": r.pending(), "diverged": r.diverged}
@@ -779,6 +879,23 @@ func (r *vRig) runScenario(t *testing.T, sc *vScenario) (events []vEvent, hung b
 	r.gids = map[int64]string{}
 	r.reqs = map[string]*vReq{}
 	r.waiting = map[string]chan struct{}{}
+	r.similar = sc.SimilarSids
+	r.sidName = map[string]string{"unknownSid": "unknownSid"}
+	// every session id this scenario will use (an answer may name a proxy that has not polled yet)
+	for _, st := range sc.Steps {
+		items := []interface{}{[]interface{}(st)}
+		if vStr(st[0]) == "Wave" {
+			items = st[1].([]interface{})
+		}
+		for _, x := range items {
+			it := x.([]interface{})
+			if vStr(it[0]) == "ProxyRegister" {
+				if sid := vWireSid(vStr(it[1]), sc.SimilarSids); r.sidName[sid] == "" {
+					r.sidName[sid] = vStr(it[1])
+				}
+			}
+		}
+	}
 	r.gateMode = sc.Mode == "replay" || sc.Barrier
 	r.lockstep = sc.Barrier
 	r.diverged = ""
@@ -854,20 +971,22 @@ func TestVerifBrokerScenarios(t *testing.T) {
 		t.Fatal(err)
 	}
 	defer f.Close()
-	enc := json.NewEncoder(f)
 	limit := 20 * time.Second
 	if v, err := time.ParseDuration(os.Getenv("VERIF_WATCHDOG")); err == nil && v > 0 {
 		limit = v
 	}
 	go vWatchdog(f, limit)
 	rig := vNewRig()
+	rig.out = f
 	first := true
 	for _, line := range bytes.Split(data, []byte("\n")) {
 		if len(bytes.TrimSpace(line)) == 0 {
 			continue
 		}
 		var sc vScenario
-		if err := json.Unmarshal(line, &sc); err != nil {
+		dec := json.NewDecoder(bytes.NewReader(line))
+		dec.UseNumber()
+		if err := dec.Decode(&sc); err != nil {
 			t.Fatalf("bad scenario: %v", err)
 		}
 		if first || sc.Fresh {
@@ -875,12 +994,7 @@ func TestVerifBrokerScenarios(t *testing.T) {
 			sc.Fresh = true
 			first = false
 		}
-		events, hung := rig.runScenario(t, &sc)
-		for _, ev := range events {
-			if err := enc.Encode(ev); err != nil {
-				t.Fatal(err)
-			}
-		}
+		_, hung := rig.runScenario(t, &sc)
 		if hung {
 			// goroutines of this context are stuck for good: continue on a new one
 			first = true
